@@ -224,6 +224,7 @@ def search(rep, tier, seed):
     rep.coverage["search_rule"] = "pool programs x (original + %d token-level mutants: delete / duplicate / swap / truncate / unbalance a delimiter / insert non-ASCII / wrap in 4..12 parentheses, deterministic per program) x rotating max_width %s x tab_spaces %s x hard_tabs, error_on_line_overflow and error_on_unformatted on (so reports are rendered); thorough: all, quick: the 1/%d slice selected by the seed; in-process in worker processes, 12 s per case; a panic is keyed by its source location" % (K, WIDTHS, TABS, MOD)
     found += binary_probe(rep, cases[:n_mut][:: max(1, n_mut // 60)])
     found += module_probe(rep)
+    found += sub_site_phase(rep, found)
     return found
 
 
@@ -252,6 +253,132 @@ def binary_probe(rep, sample):
                 found += 1
     rep.coverage["binary_runs"] = n
     return found
+
+
+# ---------------------------------------------------------------- translator: inventory of raw subtractions
+KW_NOT_OPERAND = {"return", "in", "as", "if", "else", "match", "while", "for", "loop", "break", "continue", "let", "mut", "ref", "move", "yield", "box", "where", "unsafe", "const", "static"}
+SRC_SKIP = ("verif_hooks.rs",)
+
+
+def _skip_spans(toks):
+    """token index ranges of `#[cfg(test)]` / `#[cfg(rustfmt_verif)]` / `#[test]` items (attribute .. matching brace)"""
+    sig = [i for i, (k, t) in enumerate(toks) if k not in ("ws", "lc", "bc", "dlo", "dli", "dbo", "dbi")]
+    spans = []
+    n = len(sig)
+    j = 0
+    while j < n:
+        i = sig[j]
+        if toks[i][1] == "#" and j + 1 < n and toks[sig[j + 1]][1] == "[":
+            k = j + 2
+            depth = 1
+            attr = []
+            while k < n and depth:
+                t = toks[sig[k]][1]
+                depth += t == "["
+                depth -= t == "]"
+                attr.append(t)
+                k += 1
+            a = "".join(attr)
+            if a.startswith("cfg(test") or a.startswith("cfg(rustfmt_verif") or a == "test]":
+                # skip to the end of the item: the matching brace of the first `{` (or the first `;` before any brace)
+                m = k
+                while m < n and toks[sig[m]][1] not in ("{", ";"):
+                    m += 1
+                if m < n and toks[sig[m]][1] == "{":
+                    d = 1
+                    m += 1
+                    while m < n and d:
+                        d += toks[sig[m]][1] == "{"
+                        d -= toks[sig[m]][1] == "}"
+                        m += 1
+                spans.append((i, sig[m - 1] if m - 1 < n else len(toks)))
+                j = m
+                continue
+            j = k
+            continue
+        j += 1
+    return spans
+
+
+def scan_sub_sites():
+    """every binary `-` / `-=` in /repo/src outside test and hook code, as  file::function: context"""
+    import glob
+    files = sorted(f for f in glob.glob(os.path.join(common.REPO, "src", "**", "*.rs"), recursive=True) if os.path.basename(f) not in SRC_SKIP)
+    texts = [open(f, encoding="utf-8").read() for f in files]
+    lexed = common.run_vh_pool("lex", [{"text": t} for t in texts], per_case_timeout=60)
+    sites = []
+    for f, toks in zip(files, lexed):
+        if not isinstance(toks, list):
+            sites.append("%s: NOT LEXED" % os.path.relpath(f, common.REPO))
+            continue
+        rel = os.path.relpath(f, os.path.join(common.REPO, "src"))
+        skip = _skip_spans(toks)
+        sig = [i for i, (k, t) in enumerate(toks) if k not in ("ws", "lc", "bc", "dlo", "dli", "dbo", "dbi")]
+        fn = "<top>"
+        for j, i in enumerate(sig):
+            k, t = toks[i]
+            if k == "id" and t == "fn" and j + 1 < len(sig) and toks[sig[j + 1]][0] in ("id", "rid"):
+                fn = toks[sig[j + 1]][1]
+            if k != "p" or t != "-" or j == 0 or j + 1 >= len(sig):
+                continue
+            if any(a <= i <= b for a, b in skip):
+                continue
+            pk, pt = toks[sig[j - 1]]
+            nk, nt = toks[sig[j + 1]]
+            if nt == ">":
+                continue                                   # ->
+            binary = (pk in ("id", "rid") and pt not in KW_NOT_OPERAND) or pk.startswith("lit:") or (pk == "p" and pt in (")", "]", "?"))
+            if not binary:
+                continue                                   # unary minus
+            lo, hi = max(0, j - 4), min(len(sig), j + 5)
+            ctx = " ".join(toks[sig[x]][1] for x in range(lo, hi))
+            sites.append("%s::%s: %s" % (rel, fn, ctx.replace('"', "'").replace("\\", "/")))
+    return sorted(set(sites))
+
+
+def gen_sub_sites():
+    """Gen/C16/SubSites.v, regenerated on every run: no raw subtraction outside the audited inventory"""
+    sites = scan_sub_sites()
+    d = os.path.join(common.COQ, "Gen", "C16")
+    os.makedirs(d, exist_ok=True)
+    L = ["(* Gen/C16/SubSites.v -- REGENERATED on every run by checks/c16.py from /repo/src: every binary `-` / `-=` outside",
+         "   test and hook code, as  file::function: the four tokens on either side.  The theorem says that no site lies outside",
+         "   the audited inventory coq/C16/Audited.v (the sites of the pinned snapshot, exercised by the margin sweep and the",
+         "   mutation search but NOT proved safe): a new unchecked subtraction is a new way to panic on overflow. *)",
+         "From Coq Require Import List Bool String.", "Import ListNotations.", "Open Scope string_scope.", "From V Require Import C16.Audited.",
+         "Definition sub_sites : list string := ["]
+    L.append(";\n".join('  "%s"' % x for x in sites))
+    L.append("].")
+    L.append("Definition new_sites : list string := filter (fun x => negb (existsb (String.eqb x) audited)) sub_sites.")
+    L.append("Theorem no_new_unchecked_subtraction : new_sites = [].")
+    L.append("Proof. vm_compute. reflexivity. Qed.")
+    L.append("Print Assumptions no_new_unchecked_subtraction.")
+    new = "\n".join(L) + "\n"
+    p = os.path.join(d, "SubSites.v")
+    if not os.path.exists(p) or open(p).read() != new:
+        open(p, "w").write(new)
+    return sites
+
+
+def audited_sites():
+    src = open(os.path.join(common.COQ, "C16", "Audited.v")).read()
+    return set(re.findall(r'^  "(.*)"[;]?$', src, re.M))
+
+
+def sub_site_phase(rep, found_so_far):
+    sites = gen_sub_sites()
+    cr = common.coq_phase(["C16", "Gen/C16"], "Gen/C16/SubSites.v")
+    new = sorted(set(sites) - audited_sites())
+    rep.coverage["subtraction_sites"] = len(sites)
+    rep.coverage["subtraction_sites_new"] = new
+    rep.coverage.setdefault("theorems", [])
+    if "no_new_unchecked_subtraction" not in rep.coverage["theorems"]:
+        rep.coverage["theorems"] = list(rep.coverage["theorems"]) + ["no_new_unchecked_subtraction (regenerated)"]
+    if (not cr.ok or new) and found_so_far == 0:
+        rep.violation("tie", {"broken": "Gen/C16/SubSites.v: no_new_unchecked_subtraction no longer checks", "new_sites": new, "failed": cr.failed_files, "hygiene": cr.hygiene},
+                      "a raw subtraction outside the audited inventory appeared in /repo/src (theorem no_new_unchecked_subtraction of the regenerated Gen/C16/SubSites.v fails): %r" % new[:5], no_input=True)
+        return 1
+    return 0
 
 
 def module_probe(rep):
